@@ -40,7 +40,7 @@ def main():
                 prop = head.split()[1].rstrip(":")
                 verdict = head.split(":", 1)[1].strip()
                 r[prop] = verdict
-        res[s] = r
+        res[os.path.basename(s.rstrip('/'))] = r
         print(s, r, flush=True)
         json.dump(res, open(rp, "w"), indent=1, sort_keys=True)
 
